@@ -84,7 +84,12 @@ def parseOp (s : String) : Option Op :=
     pure (.cp a b)
   | ["R", p] => (parsePath p).map .rm
   | ["H", p] => (parsePath p).map .chmod
-  | ["D", n] => (parseNat n).map .regDefer
+  | ["D", n] => (parseNat n).map fun i => .regDefer i .none
+  | ["D", n, k] => do
+    let i ← parseNat n
+    let ab ← (if k == "f" then some Abort.failNow else if k == "s" then some Abort.skip
+              else if k == "p" then some Abort.panic else if k == "n" then some Abort.none else none)
+    pure (.regDefer i ab)
   | ["B", n, k, g] => do
     let n ← unhexS n
     let k ← parseKind k
@@ -191,10 +196,22 @@ def stepLine (line : String) : String :=
       let p := plan t
       s!"g={p.grace} i={p.interruptAt} k={p.killAt}"
     | none => "bad-op"
+  | ["ctxdl", call, start, t] =>
+    match parseInt call, parseInt start, parseInt t with
+    | some call, some start, some t => s!"x={scriptCtxExpiry call start t}"
+    | _, _, _ => "bad-op"
   | ["env", host, root, name, setup] =>
     match parseEnv host, unhexS root, unhexS name, parseEnv setup with
     | some host, some root, some name, some setup => showEnv (initialEnv host (workdirOf root name) setup)
     | _, _, _, _ => "bad-op"
+  | ["names", files] =>
+    -- file base names (with extension) of one RunT call, in order → the subtest names
+    match (splitList files ",").mapM unhexS with
+    | some fs =>
+      match assignNames (fs.map scriptBase) with
+      | some ns => if ns.isEmpty then "-" else ",".intercalate (ns.map hexS)
+      | none => "no-free-name"
+    | none => "bad-op"
   | ["refcount", n, retain, sched] =>
     match parseNat n, parseBool retain, (splitList sched ",").mapM parseNat with
     | some n, some retain, some sched =>
